@@ -36,6 +36,11 @@ pub struct AnnCall {
     pub rec: u32,
     /// `None` = `add_gene` / `add_*_disease` only
     pub term: Option<u32>,
+    /// the call spells the record's name differently (e.g. one MIM title written two ways in
+    /// phenotype.hpoa); which spelling is kept is order dependent (first wins) and only used
+    /// where names are not compared
+    #[serde(default)]
+    pub alt_name: Option<String>,
 }
 
 /// The facts an ontology is built from. Vectors are in *supply order*.
@@ -77,6 +82,7 @@ impl Facts {
                         kind: k as u8,
                         rec: r.id,
                         term: None,
+                        alt_name: None,
                     });
                 }
                 for t in &r.terms {
@@ -84,6 +90,7 @@ impl Facts {
                         kind: k as u8,
                         rec: r.id,
                         term: Some(*t),
+                        alt_name: None,
                     });
                 }
             }
